@@ -226,11 +226,12 @@ func implementationsOf(p *core.Program, iface *types.Interface) []*types.Named {
 
 // checkPerTagDispatch (D2'): the converter keeps, per tag, the list of extractors interested in
 // that tag. That offers a node to exactly the extractors that could recognise it when
-//   (a) the constructor fills the map only by `m[t] = append(m[t], e)` in a complete loop over a
-//       list that holds every implementation, nested with a complete loop over
-//       e.RelevantTagNames() (so e is listed under every tag it declares, in list order), and
-//   (b) every implementation's Extract answers nil, before doing anything else, for a node whose
-//       tag is not in the table that its RelevantTagNames enumerates.
+//
+//	(a) the constructor fills the map only by `m[t] = append(m[t], e)` in a complete loop over a
+//	    list that holds every implementation, nested with a complete loop over
+//	    e.RelevantTagNames() (so e is listed under every tag it declares, in list order), and
+//	(b) every implementation's Extract answers nil, before doing anything else, for a node whose
+//	    tag is not in the table that its RelevantTagNames enumerates.
 func checkPerTagDispatch(p *core.Program, r *core.Report, rule string, tagMap *ssa.FieldAddr, iface *types.Interface) {
 	c := core.NewCanon(p)
 	ctor := mustInl(p, r, rule, converterPkg+".NewDomConverter")
